@@ -153,7 +153,11 @@ def conversions(ctx):
     """NumCast / FromPrimitive conversions on the accept paths are float->float or int->float (Some for every input)"""
     bad = []
     n = 0
-    for nm in ('nuts::NUTSChain::step', 'nuts::build_tree', 'nuts::find_reasonable_epsilon', 'hmc::HMC::step', 'hmc::HMC::leapfrog'):
+    bstep, rec = locate(ctx)
+    names = ['nuts::NUTSChain::step', 'hmc::HMC::step', ctx.helper_key('nuts.fre', 'nuts::find_reasonable_epsilon'), ctx.helper_key('hmc.leapfrog', 'hmc::HMC::leapfrog')]
+    if rec and len(rec) == 1:
+        names.append(strip_generics(rec[0]['path']))
+    for nm in names:
         bs = [b for b in ctx.facts.bodies if b['def_kind'] in ('Fn', 'AssocFn') and strip_generics(b['path']) == nm]
         for b in bs:
             def f(node, b=b):
